@@ -7,8 +7,10 @@ F(ll, ems, ji, std8, ug, mv, t2, xs, ys) ==
 TheContents == << F("1d", FALSE, FALSE, FALSE, FALSE, FALSE, FALSE, LOW, 0),
                   F("2d", TRUE, TRUE, FALSE, FALSE, FALSE, FALSE, 0, HIGH),
                   F("none", FALSE, FALSE, FALSE, TRUE, FALSE, TRUE, MEDIUM, 0),
-                  F("mixed", TRUE, FALSE, FALSE, TRUE, TRUE, FALSE, 0, 0) >>
+                  F("mixed", TRUE, FALSE, FALSE, TRUE, TRUE, FALSE, 0, 0),
+                  \* both SHOC conventions match at HIGH: a tie between built-ins that a manual registration of one of them decides
+                  F("2d", TRUE, TRUE, TRUE, FALSE, FALSE, FALSE, 0, 0) >>
 TheEntryPoints == <<"ArakawaC", "CFGrid1D", "CFGrid2D", "ShocSimple", "ShocStandard", "UGrid">>
-TheExtra == {"X", "Y"}
+TheExtra == {"X", "Y", "ShocStandard"}      \* a built-in class can be registered by hand as well
 TheConstruct == {"CFGrid2D", "X"}
 =============================================================================
